@@ -91,11 +91,10 @@ Lemma list_eqb_refl : forall {A} (e : A -> A -> bool) (l : list A),
 Proof. intros A e l H. induction l; cbn; [reflexivity | rewrite H, IHl; reflexivity]. Qed.
 
 Theorem wire_model_passes_stream : forall kind chmap out obs,
-  kind <> 1 -> forallb pkt_wf out = true ->
+  is_datagram_kind kind = false -> forallb pkt_wf out = true ->
   model_client kind chmap out = Some obs -> ok_wire kind chmap out obs = true.
 Proof.
-  intros kind chmap out obs Hk Hwf Hm. unfold ok_wire, model_client in *.
-  destruct (kind =? 1) eqn:E1; [apply Z.eqb_eq in E1; congruence|].
+  intros kind chmap out obs Hk Hwf Hm. unfold ok_wire, model_client in *. rewrite Hk in *.
   destruct (kind =? 0).
   - rewrite (wire_tcp_faithful chmap out (length out) Hwf (le_n _)) in Hm. inversion Hm; subst.
     apply list_eqb_refl. exact pkt_eqb_refl.
@@ -108,7 +107,7 @@ Theorem wire_model_client_defined : forall kind chmap out,
 Proof.
   intros kind chmap out Hwf. unfold model_client.
   destruct (kind =? 0); [eexists; apply (wire_tcp_faithful chmap out (length out) Hwf (le_n _))|].
-  destruct (kind =? 1); [eexists; reflexivity|].
+  destruct (is_datagram_kind kind); [eexists; reflexivity|].
   eexists; apply (wire_ws_faithful chmap out Hwf).
 Qed.
 
